@@ -156,46 +156,56 @@ def impl_events(ctx):
             pos_to = np.array(pts, dtype=float) / D
             from_idx = [0, 1, len(pts) - 1]
             pos_from = pos_to[from_idx]
-            try:
-                dsv, dmulti = get_smallest_vectors(Ls, pos_to, pos_from, store_dense_svecs=True)
-                ssv, smulti = get_smallest_vectors(Ls, pos_to, pos_from, store_dense_svecs=False)
-            except Exception as e:
-                ctx.violation("impl:exception", "get_smallest_vectors raised %s" % type(e).__name__,
-                              dict(G=G, U=U.tolist(), D=D, error=repr(e)))
-                continue
-            n_lat += 1
-            # whole-table facts: addresses are running sums; converters agree
-            addr_ok = True
-            run = 0
-            for i in range(len(pts)):
-                for j in range(len(from_idx)):
-                    if dmulti[i, j, 1] != run:
-                        addr_ok = False
-                    run += dmulti[i, j, 0]
-            addr_ok = addr_ok and run == len(dsv)
-            c_dsv, c_dmulti = sparse_to_dense_svecs(ssv, smulti)
-            c_ssv, c_smulti = dense_to_sparse_svecs(dsv, dmulti)
-            conv_ok = bool(np.array_equal(c_dmulti, dmulti) and np.allclose(c_dsv, dsv, atol=1e-12)
-                           and np.array_equal(c_smulti, smulti) and all(
-                np.allclose(c_ssv[i, j, :smulti[i, j]], ssv[i, j, :smulti[i, j]], atol=1e-12)
-                for i in range(len(pts)) for j in range(len(from_idx))))
-            for i in range(len(pts)):
-                for j in range(len(from_idx)):
-                    ds = [pts[i][k] - pts[from_idx[j]][k] for k in range(3)]
-                    dr = [int(x) for x in np.array(ds) @ U]
-                    B = box_for(G, D, dr)
-                    if B is None:
-                        ctx.extra["skipped_overflow"] = ctx.extra.get("skipped_overflow", 0) + 1
-                        continue
-                    m, a = int(dmulti[i, j, 0]), int(dmulti[i, j, 1])
-                    dv = dsv[a:a + m] * D
-                    sv = ssv[i, j, :int(smulti[i, j])] * D
-                    exact = bool(np.abs(dv - np.rint(dv)).max(initial=0) < 1e-6 and np.abs(sv - np.rint(sv)).max(initial=0) < 1e-6)
-                    events.append(dict(kind="impl", G=G, U=U.tolist(), Gs=Gs.tolist(), D=D, ds=ds, B=B,
-                                       dense=np.rint(dv).astype(int).tolist(), denseMulti=m,
-                                       sparse=np.rint(sv).astype(int).tolist(), sparseMulti=int(smulti[i, j]),
-                                       exact=exact, addrOK=bool(addr_ok), convertOK=conv_ok))
-                    ctx.count(("impl", tuple(map(tuple, Gs.tolist())), D, tuple(ds)))
+            for noisy in (False, True):
+                if noisy:
+                    # positions off the grid by far less than symprec (1e-5): ties are then only approximate and
+                    # must still be reported ("within the symmetry tolerance"); Cartesian noise <= 1.5e-6 per atom
+                    e = nprng.normal(size=pos_to.shape)
+                    e *= (1.5e-6 * nprng.uniform(0.3, 1.0, size=(len(e), 1))) / np.linalg.norm(e, axis=1, keepdims=True)
+                    pos_to_n = pos_to + e @ np.linalg.inv(Ls)
+                else:
+                    pos_to_n = pos_to
+                pos_from_n = pos_to_n[from_idx]
+                try:
+                    dsv, dmulti = get_smallest_vectors(Ls, pos_to_n, pos_from_n, store_dense_svecs=True)
+                    ssv, smulti = get_smallest_vectors(Ls, pos_to_n, pos_from_n, store_dense_svecs=False)
+                except Exception as e:
+                    ctx.violation("impl:exception", "get_smallest_vectors raised %s" % type(e).__name__,
+                                  dict(G=G, U=U.tolist(), D=D, error=repr(e)))
+                    continue
+                n_lat += 1
+                # whole-table facts: addresses are running sums; converters agree
+                addr_ok = True
+                run = 0
+                for i in range(len(pts)):
+                    for j in range(len(from_idx)):
+                        if dmulti[i, j, 1] != run:
+                            addr_ok = False
+                        run += dmulti[i, j, 0]
+                addr_ok = addr_ok and run == len(dsv)
+                c_dsv, c_dmulti = sparse_to_dense_svecs(ssv, smulti)
+                c_ssv, c_smulti = dense_to_sparse_svecs(dsv, dmulti)
+                conv_ok = bool(np.array_equal(c_dmulti, dmulti) and np.allclose(c_dsv, dsv, atol=1e-12)
+                               and np.array_equal(c_smulti, smulti) and all(
+                    np.allclose(c_ssv[i, j, :smulti[i, j]], ssv[i, j, :smulti[i, j]], atol=1e-12)
+                    for i in range(len(pts)) for j in range(len(from_idx))))
+                for i in range(len(pts)):
+                    for j in range(len(from_idx)):
+                        ds = [pts[i][k] - pts[from_idx[j]][k] for k in range(3)]
+                        dr = [int(x) for x in np.array(ds) @ U]
+                        B = box_for(G, D, dr)
+                        if B is None:
+                            ctx.extra["skipped_overflow"] = ctx.extra.get("skipped_overflow", 0) + 1
+                            continue
+                        m, a = int(dmulti[i, j, 0]), int(dmulti[i, j, 1])
+                        dv = dsv[a:a + m] * D
+                        sv = ssv[i, j, :int(smulti[i, j])] * D
+                        exact = bool(np.abs(dv - np.rint(dv)).max(initial=0) < 1e-4 and np.abs(sv - np.rint(sv)).max(initial=0) < 1e-4)
+                        events.append(dict(kind="impl", noisy=noisy, G=G, U=U.tolist(), Gs=Gs.tolist(), D=D, ds=ds, B=B,
+                                           dense=np.rint(dv).astype(int).tolist(), denseMulti=m,
+                                           sparse=np.rint(sv).astype(int).tolist(), sparseMulti=int(smulti[i, j]),
+                                           exact=exact, addrOK=bool(addr_ok), convertOK=conv_ok))
+                        ctx.count(("impl", tuple(map(tuple, Gs.tolist())), D, tuple(ds), noisy))
     ctx.extra["impl_lattices"] = n_lat
     return events
 
